@@ -160,6 +160,33 @@ path = "@JUNIT@"
         sc.stall_stderr_s = 7
         sc.meta = {"tests": tests, "retries": 0, "threads": 2, "heavy": False, "group_m": None, "group_r": None, "grace": GRACE, "delay_ms": 0, "backoff": "fixed", "run_ignored": "default", "extra": False, "store_s": False, "store_f": True}
         return sc
+    if k == 5:
+        # fixed scenario (corpus): threads-required = "num-test-threads" must mean the EFFECTIVE thread count (-j 4 on the command
+        # line), not the profile's (2): the heavy test runs alone
+        w = lambda ms_: {"kind": "pass", "acts": [f"work:{ms_}", "exit:0"], "out": None, "err": None, "expect": "P"}
+        tests = [{"bin": "t_three", "pkg": "beta", "name": "heavy", "ignored": False, "attempts": [w(350)]}]
+        tests += [{"bin": "t_one", "pkg": "alpha", "name": f"light_{i}", "ignored": False, "attempts": [w(300)]} for i in range(6)]
+        for t in tests: sc.test(t["bin"], t["name"], {"1": t["attempts"][0]["acts"]})
+        sc.config = '''[profile.default]
+retries = 0
+test-threads = 2
+fail-fast = false
+status-level = "all"
+final-status-level = "all"
+failure-output = "never"
+success-output = "never"
+[profile.default.junit]
+path = "@JUNIT@"
+[[profile.default.overrides]]
+filter = 'binary(t_three)'
+threads-required = "num-test-threads"
+priority = 50
+'''
+        sc.cli = ["-j", "4"]
+        sc.env = {}
+        sc.timeout_s = 60
+        sc.meta = {"tests": tests, "retries": 0, "threads": 4, "heavy": True, "group_m": None, "group_r": None, "grace": GRACE, "delay_ms": 0, "backoff": "fixed", "run_ignored": "default", "extra": False, "store_s": False, "store_f": True}
+        return sc
     retries = rng.choice([0, 0, 1, 2])
     threads = rng.choice([1, 2, 4])
     delay_ms = rng.choice([0, 0, 150]) if retries else 0
@@ -250,7 +277,7 @@ def test_key(t):
     return f"{hx(binary_id(t))}/{hx(t['name'])}"
 
 
-def run_family(seed, tier, n_quick=6, n_thorough=60):
+def run_family(seed, tier, n_quick=9, n_thorough=60):
     ok, err = e2e.build_workspace()
     broken = []
     if not ok: broken.append("scripted workspace does not build: " + err[-300:])
@@ -663,7 +690,7 @@ if __name__ == "__main__":
             for v in mon(sc, r): print("   ", mon.__name__, v["what"][:300])
 
 
-def check(monitors, seed, tier, n_quick=6, n_thorough=60):
+def check(monitors, seed, tier, n_quick=9, n_thorough=60):
     """Run the family and the given monitors; returns a dict to be merged into a property's result."""
     res, broken = run_family(seed, tier, n_quick, n_thorough)
     violations = []
